@@ -184,11 +184,15 @@ impl ServerState {
         let rx = self.cb_rx.clone();
         let last_compilation_state = self.last_compilation_state.clone();
         std::thread::spawn(move || {
+            #[cfg(feature = "verif")]
+            sway_core::verif_hooks::wait_until("worker.recv", &|| !rx.is_empty());
             while let Ok(msg) = rx.recv() {
                 match msg {
                     TaskMessage::CompilationContext(ctx) => {
                         let uri = &ctx.uri;
                         let path = uri.to_file_path().unwrap();
+                        #[cfg(feature = "verif")]
+                        sway_core::verif_hooks::point("worker.clone_engines");
                         let mut engines_clone = ctx.engines.read().clone();
                         let lsp_mode = Some(LspConfig {
                             optimized_build: ctx.optimized_build,
@@ -213,6 +217,8 @@ impl ServerState {
                         }
 
                         // Set the is_compiling flag to true so that the wait_for_parsing function knows that we are compiling
+                        #[cfg(feature = "verif")]
+                        sway_core::verif_hooks::point("worker.store_compiling_true");
                         is_compiling.store(true, Ordering::SeqCst);
                         match session::parse_project(
                             uri,
@@ -256,12 +262,20 @@ impl ServerState {
                         }
 
                         // Reset the flags to false
+                        #[cfg(feature = "verif")]
+                        sway_core::verif_hooks::point("worker.store_compiling_false");
                         is_compiling.store(false, Ordering::SeqCst);
+                        #[cfg(feature = "verif")]
+                        sway_core::verif_hooks::point("worker.store_retrigger_false");
                         retrigger_compilation.store(false, Ordering::SeqCst);
+                        #[cfg(feature = "verif")]
+                        sway_core::verif_hooks::point("worker.is_empty");
 
                         // Make sure there isn't any pending compilation work
                         if rx.is_empty() {
                             // finished compilation, notify waiters
+                            #[cfg(feature = "verif")]
+                            sway_core::verif_hooks::point("worker.notify");
                             finished_compilation.notify_waiters();
                         }
                     }
@@ -270,6 +284,8 @@ impl ServerState {
                         return;
                     }
                 }
+                #[cfg(feature = "verif")]
+                sway_core::verif_hooks::wait_until("worker.recv", &|| !rx.is_empty());
             }
         });
     }
@@ -306,16 +322,22 @@ impl ServerState {
         loop {
             // Check both the is_compiling flag and the last_compilation_state.
             // Wait if is_compiling is true or if the last_compilation_state is Uninitialized.
+            #[cfg(feature = "verif")]
+            sway_core::verif_hooks::point("wfp.load_is_compiling");
             if !self.is_compiling.load(Ordering::SeqCst)
                 && *self.last_compilation_state.read() != LastCompilationState::Uninitialized
             {
                 // compilation is finished, lets check if there are pending compilation requests.
+                #[cfg(feature = "verif")]
+                sway_core::verif_hooks::point("wfp.is_empty");
                 if self.cb_rx.is_empty() {
                     // no pending compilation work, safe to break.
                     break;
                 }
             }
             // We are still compiling, lets wait to be notified.
+            #[cfg(feature = "verif")]
+            sway_core::verif_hooks::point("wfp.before_notified");
             self.finished_compilation.notified().await;
         }
     }
